@@ -115,6 +115,8 @@ type target struct {
 	file   *j5sgen.File
 	last   bool // declaration is the last in its file
 	nested bool // has inline / nested types
+	// top-level type names of the package the target is in
+	typeNames []string
 }
 
 func hasInline(fs []*j5sgen.Field) bool {
@@ -130,7 +132,37 @@ func hasInline(fs []*j5sgen.Field) bool {
 	return false
 }
 
+// typeNames lists the top-level type names declared in a package.
+func typeNames(p *j5sgen.Package) []string {
+	var out []string
+	for _, f := range p.Files {
+		for _, d := range f.Decls {
+			switch {
+			case d.Object != nil:
+				out = append(out, d.Object.Name)
+			case d.Oneof != nil:
+				out = append(out, d.Oneof.Name)
+			case d.Enum != nil:
+				out = append(out, d.Enum.Name)
+			}
+		}
+	}
+	return out
+}
+
 func targets(b *j5sgen.Bundle) []target {
+	var all []target
+	for _, p := range b.Packages {
+		names := typeNames(p)
+		for _, tg := range targetsOf(&j5sgen.Bundle{Packages: []*j5sgen.Package{p}}) {
+			tg.typeNames = names
+			all = append(all, tg)
+		}
+	}
+	return all
+}
+
+func targetsOf(b *j5sgen.Bundle) []target {
 	var out []target
 	var walkFields func(what string, fs *[]*j5sgen.Field, last bool)
 	walkFields = func(what string, fs *[]*j5sgen.Field, last bool) {
@@ -188,25 +220,54 @@ func targets(b *j5sgen.Bundle) []target {
 	return out
 }
 
-func newField(t *rapid.T, n int, objectOnly bool) *j5sgen.Field {
+func lowerFirst(s string) string { return strings.ToLower(s[:1]) + s[1:] }
+
+// newField draws the appended field. Its name is usually fresh ("addedOne"), but
+// the interesting interactions of an append are through names: a name that sorts
+// before every existing one, and - for fields with an inline type - a name whose
+// CamelCase equals an existing top-level type, so the generated nested type
+// Parent.X shadows the top-level X in protobuf scoping.
+func newField(t *rapid.T, n int, objectOnly bool, existing []*j5sgen.Field, typeNames []string) (*j5sgen.Field, string) {
 	name := fmt.Sprintf("added%s", []string{"One", "Two", "Three", "Four", "Five", "Six"}[n%6])
 	k := rapid.IntRange(0, 4).Draw(t, "newkind")
 	if objectOnly {
 		k = 3
 	}
+	taken := map[string]bool{}
+	for _, f := range existing {
+		taken[strings.ToLower(f.Name)] = true
+	}
+	naming := "fresh"
+	switch rapid.IntRange(0, 3).Draw(t, "naming") {
+	case 0:
+		if cand := fmt.Sprintf("aaFirst%d", n); !taken[strings.ToLower(cand)] {
+			name, naming = cand, "sorts-first"
+		}
+	case 1, 2:
+		if (k == 2 || k == 3) && len(typeNames) > 0 {
+			cand := lowerFirst(rapid.SampledFrom(typeNames).Draw(t, "shadow"))
+			if !taken[strings.ToLower(cand)] {
+				name, naming = cand, "shadows-top-level-type"
+			}
+		}
+	}
+	var f *j5sgen.Field
 	switch k {
 	case 0:
-		return &j5sgen.Field{Name: name, Type: &j5sgen.Type{Kind: "string"}}
+		f = &j5sgen.Field{Name: name, Type: &j5sgen.Type{Kind: "string"}}
 	case 1:
-		return &j5sgen.Field{Name: name, Type: &j5sgen.Type{Kind: "integer", Format: "INT64"}, Optional: true}
+		f = &j5sgen.Field{Name: name, Type: &j5sgen.Type{Kind: "integer", Format: "INT64"}, Optional: true}
 	case 2:
-		return &j5sgen.Field{Name: name, Type: &j5sgen.Type{Kind: "enum", InlineEnum: &j5sgen.Enum{Options: []*j5sgen.EnumOption{{Name: "FIRST"}, {Name: "SECOND"}}}}}
+		f = &j5sgen.Field{Name: name, Type: &j5sgen.Type{Kind: "enum", InlineEnum: &j5sgen.Enum{Options: []*j5sgen.EnumOption{{Name: "FIRST"}, {Name: "SECOND"}}}}}
 	case 3:
-		return &j5sgen.Field{Name: name, Type: &j5sgen.Type{Kind: "object", InlineObject: &j5sgen.Object{Fields: []*j5sgen.Field{{Name: "inner", Type: &j5sgen.Type{Kind: "bool"}}}}}}
+		f = &j5sgen.Field{Name: name, Type: &j5sgen.Type{Kind: "object", InlineObject: &j5sgen.Object{Fields: []*j5sgen.Field{{Name: "inner", Type: &j5sgen.Type{Kind: "bool"}}}}}}
 	default:
-		return &j5sgen.Field{Name: name, Type: &j5sgen.Type{Kind: "array", Items: &j5sgen.Type{Kind: "key", Format: "id62"}}, Required: true}
+		f = &j5sgen.Field{Name: name, Type: &j5sgen.Type{Kind: "array", Items: &j5sgen.Type{Kind: "key", Format: "id62"}}, Required: true}
 	}
+	return f, naming
 }
+
+func first(f *j5sgen.Field, _ string) *j5sgen.Field { return f }
 
 func TestAppend(t *testing.T) {
 	r := vf.Start(t, prop, "append")
@@ -228,16 +289,21 @@ func TestAppend(t *testing.T) {
 				name := fmt.Sprintf("Appended%s", []string{"Alpha", "Beta", "Gamma", "Delta", "Epsilon"}[i])
 				switch rapid.IntRange(0, 2).Draw(t, "newdecl") {
 				case 0:
-					tt.file.Decls = append(tt.file.Decls, &j5sgen.Decl{Object: &j5sgen.Object{Name: name, Fields: []*j5sgen.Field{newField(t, 0, false)}}})
+					tt.file.Decls = append(tt.file.Decls, &j5sgen.Decl{Object: &j5sgen.Object{Name: name, Fields: []*j5sgen.Field{first(newField(t, 0, false, nil, nil))}}})
 				case 1:
 					tt.file.Decls = append(tt.file.Decls, &j5sgen.Decl{Enum: &j5sgen.Enum{Name: name, Options: []*j5sgen.EnumOption{{Name: "ONE"}}}})
 				default:
-					tt.file.Decls = append(tt.file.Decls, &j5sgen.Decl{Oneof: &j5sgen.Oneof{Name: name, Options: []*j5sgen.Field{newField(t, 0, true)}}})
+					tt.file.Decls = append(tt.file.Decls, &j5sgen.Decl{Oneof: &j5sgen.Oneof{Name: name, Options: []*j5sgen.Field{first(newField(t, 0, true, nil, nil))}}})
 				}
 			case tt.enum != nil:
 				tt.enum.Options = append(tt.enum.Options, &j5sgen.EnumOption{Name: fmt.Sprintf("ADDED_%d", i)})
 			default:
-				*tt.fields = append(*tt.fields, newField(t, i, strings.Contains(tt.what, "oneof")))
+				nf, naming := newField(t, i, strings.Contains(tt.what, "oneof"), *tt.fields, tt.typeNames)
+				*tt.fields = append(*tt.fields, nf)
+				cls = append(cls, "name:"+naming)
+				if naming == "shadows-top-level-type" {
+					nt = true
+				}
 			}
 			c.Steps = append(c.Steps, next)
 			c.Edits = append(c.Edits, tt.what)
